@@ -215,4 +215,54 @@ func streamC19(w *W, rng *rand.Rand, tier string) {
 		c19SegSeg(w, ax, ay, bx, by, cx, cy, dx, dy, s)
 		c19SegSeg(w, cx, cy, dx, dy, ax, ay, bx, by, s)
 	}
+	// lattice points on long oblique segments: b = a + g*u for a small direction u and a length factor g
+	// that is usually not a power of two; the probe is a + k*u (inside, at the ends, just beyond), the
+	// second segment a nested / overlapping / touching collinear piece or the probe as a zero-length segment
+	m := n / 2
+	for i := 0; i < m; i++ {
+		s := int64(rng.Intn(4))
+		ux, uy := int64(rng.Intn(41)-20), int64(rng.Intn(41)-20)
+		if ux == 0 && uy == 0 {
+			ux = 1
+		}
+		g := int64(2 + rng.Intn(120))
+		if rng.Intn(4) == 0 {
+			g = int64(2 + rng.Intn(4000))
+		}
+		var ax, ay int64
+		switch rng.Intn(3) {
+		case 0:
+			ax, ay = 0, 0
+		case 1:
+			ax, ay = int64(rng.Intn(201)-100), int64(rng.Intn(201)-100)
+		default:
+			ax, ay = c19Coord(rng, true)/4, c19Coord(rng, true)/4
+		}
+		bx, by := ax+g*ux, ay+g*uy
+		k := int64(rng.Intn(int(g)+5)) - 2
+		x, y := ax+k*ux, ay+k*uy
+		if rng.Intn(8) == 0 { // one grid step off the line
+			x += int64(rng.Intn(3) - 1)
+			y += int64(rng.Intn(3) - 1)
+		}
+		if !inDom(ax, ay, bx, by, x, y) {
+			w.count("long-oblique:out-of-domain")
+			continue
+		}
+		if rng.Intn(2) == 0 {
+			ax, ay, bx, by = bx, by, ax, ay
+		}
+		c19SegPoint(w, ax, ay, bx, by, x, y, s)
+		k2 := int64(rng.Intn(int(g)+5)) - 2
+		cx, cy, dx, dy := x, y, ax+k2*(bx-ax)/g, ay+k2*(by-ay)/g
+		if rng.Intn(3) == 0 {
+			dx, dy = x, y
+		}
+		if !inDom(cx, cy, dx, dy) {
+			continue
+		}
+		c19SegSeg(w, ax, ay, bx, by, cx, cy, dx, dy, s)
+		c19SegSeg(w, cx, cy, dx, dy, ax, ay, bx, by, s)
+		w.count("long-oblique")
+	}
 }
